@@ -18,6 +18,7 @@ package cluster
 
 import (
 	"bytes"
+	"encoding/base64"
 	"encoding/hex"
 	"encoding/json"
 	"fmt"
@@ -225,7 +226,7 @@ func c12bBuild(t *testing.T, id c12bFixID) (*c12bFix, error) {
 	}
 	if isAnyVersion(version, v1_0, v1_1, v1_2, v1_3, v1_4) {
 		// Single fee-recipient/withdrawal address before v1.5.
-		opts = append(opts, WithLegacyVAddrs("0x52fdfc072182654f163f5f0f9a621d729566c74d", "0x10037c4d7bbb0407d1e2c64981855ad8681d0d86"))
+		opts = append(opts, WithLegacyVAddrs("0x00fdfc072182654f163f5f0f9a621d729566c700", "0x00037c4d7bbb0407d1e2c64981855ad8681d0d00"))
 	}
 	lock, p2p, shares := NewForT(t, dv, k, n, seed, random, opts...)
 
@@ -237,6 +238,13 @@ func c12bBuild(t *testing.T, id c12bFixID) (*c12bFix, error) {
 		}
 		def.Operators = ops
 		def.Creator = Creator{}
+		// addresses with a zero byte at either end (nothing signs the unsigned variant's config, so they can be set here)
+		for i := range def.ValidatorAddresses {
+			def.ValidatorAddresses[i] = ValidatorAddresses{
+				FeeRecipientAddress: fmt.Sprintf("0x00fdfc072182654f163f5f0f9a621d729566%02x00", i+1),
+				WithdrawalAddress:   fmt.Sprintf("0x00037c4d7bbb0407d1e2c64981855ad8681d%02x00", i+1),
+			}
+		}
 	}
 	if isAnyVersion(version, v1_0, v1_1, v1_2, v1_3) {
 		def.Creator = Creator{} // no creator before v1.4
@@ -370,6 +378,11 @@ func c12enum(node any, path []string, out *[]c12mutID) {
 			add("remove", "set0x", "setb64")
 		} else {
 			add("remove", "empty", "flip0", "flipM", "flipL", "other")
+			if _, _, ok := c12bytesOf(x); ok {
+				// length changes of byte strings: the hashing pads some fields, so a byte string that lost or gained a zero byte
+				// at either end is a different file that may hash the same
+				add("dropB0", "dropBL", "padB0", "padBL")
+			}
 		}
 		if len(path) > 0 && path[len(path)-1] == "version" {
 			for _, v := range c12bAllVersions {
@@ -458,6 +471,25 @@ func c12flip(s string, where int) (string, bool) {
 	return s, false
 }
 
+// c12bytesOf reads s as a byte string of at least two bytes: 0x-hex, or standard base64 of a length no text field has.
+func c12bytesOf(s string) ([]byte, func([]byte) string, bool) {
+	if strings.HasPrefix(s, "0x") && c12isHex(s[2:]) && len(s)%2 == 0 && len(s) >= 6 {
+		b, err := hex.DecodeString(s[2:])
+		if err != nil {
+			return nil, nil, false
+		}
+		return b, func(b []byte) string { return "0x" + hex.EncodeToString(b) }, true
+	}
+	if len(s) >= 24 && len(s)%4 == 0 && !strings.ContainsAny(s, " :-._") {
+		b, err := base64.StdEncoding.DecodeString(s)
+		if err != nil || len(b) < 2 {
+			return nil, nil, false
+		}
+		return b, func(b []byte) string { return base64.StdEncoding.EncodeToString(b) }, true
+	}
+	return nil, nil, false
+}
+
 func c12other(s string) string {
 	var o string
 	switch {
@@ -495,6 +527,22 @@ func c12mutLeaf(node any, kind string) (nn any, remove, ok bool) {
 			return s, false, ok
 		case kind == "other":
 			return c12other(x), false, true
+		case kind == "dropB0" || kind == "dropBL" || kind == "padB0" || kind == "padBL":
+			b, enc, ok := c12bytesOf(x)
+			if !ok {
+				return nil, false, false
+			}
+			switch kind {
+			case "dropB0":
+				b = b[1:]
+			case "dropBL":
+				b = b[:len(b)-1]
+			case "padB0":
+				b = append([]byte{0}, b...)
+			case "padBL":
+				b = append(append([]byte(nil), b...), 0)
+			}
+			return enc(b), false, true
 		case kind == "set0x":
 			return "0x01", false, true
 		case kind == "setb64":
@@ -1052,9 +1100,10 @@ func c12bFixtures() []c12bFixID {
 		shape [3]int
 		net   string
 	}
-	sns := []sn{{[3]int{2, 3, 4}, eth2util.Goerli.Name}}
+	// goerli's fork version has leading zero bytes, mainnet's is all zero (trailing zeros): both paddings of the hashing
+	sns := []sn{{[3]int{2, 3, 4}, eth2util.Goerli.Name}, {[3]int{2, 3, 4}, eth2util.Mainnet.Name}}
 	if enumx.Thorough() {
-		sns = append(sns, sn{[3]int{2, 3, 4}, eth2util.Mainnet.Name}, sn{[3]int{1, 2, 3}, eth2util.Goerli.Name}, sn{[3]int{2, 4, 4}, eth2util.Hoodi.Name})
+		sns = append(sns, sn{[3]int{1, 2, 3}, eth2util.Goerli.Name}, sn{[3]int{2, 4, 4}, eth2util.Hoodi.Name})
 	}
 	for _, s := range sns {
 		for _, v := range c12bAllVersions {
